@@ -354,7 +354,7 @@ def bintestRows (bins : List Bin) (segs : List Seg) : List (Bin × Rat) :=
   else r1
 
 /-- two-sided p of one bin (`z_prob` before the adjustment): `2Φ(−|z|)`, `z = resid/√(1−w)`, given
-    `tail : z² ↦ 2Φ(−|z|)`.  Repaired code (finding T): a zero residual is `z = 0` whatever the
+    `tail : z² ↦ 2Φ(−|z|)`.  Repaired code (finding W): a zero residual is `z = 0` whatever the
     weight; a non-zero residual with weight 1 is `z = ±∞`, `p = 0`. -/
 def pRaw (tail : Rat → Rat) (resid w : Rat) : Rat :=
   if resid == 0 then tail 0
